@@ -222,3 +222,53 @@ def is_call_to(rx):
     def p(kind, v):
         return kind == 'call' and (r.search(v['f'].get('fn', '')) or r.search(v['f'].get('res', '') or ''))
     return p
+
+
+def enum_switch_info(b, i):
+    """For a switch block on an enum discriminant: (adt path, {value: name}, place) else None."""
+    t = b.blocks[i]['t']
+    if t['k'] != 'switch' or 'l' not in t['o']:
+        return None
+    for s in b.blocks[i]['s']:
+        if s['d']['l'] == t['o']['l'] and not s['d']['pr'] and s['r']['k'] == 'discr' and 'enum' in s['r']:
+            return (s['r']['enum']['adt'], {v: n for v, n in s['r']['enum']['vars']}, s['r']['p'])
+    return None
+
+
+def edge_variants(b, i, tgt):
+    """Variant names selected by the edge(s) from enum switch i to block tgt."""
+    info = enum_switch_info(b, i)
+    if info is None:
+        return None
+    adt, names, _ = info
+    t = b.blocks[i]['t']
+    explicit = {v for v, _ in t['targets']}
+    out = []
+    for v, bb in t['targets']:
+        if bb == tgt:
+            out.append(names.get(v, '#%d' % v))
+    if t['else'] == tgt:
+        out += [n for v, n in names.items() if v not in explicit]
+    return out
+
+
+def arm_context(b, x, dom=None):
+    """Enum-variant context of block x: for every enum switch that dominates x and has exactly one successor that
+    dominates x (or is x), the variants selected by that edge.  Returns list of (adt short name, [variants])."""
+    dom = dom or b.dominators()
+    ctx = []
+    if x not in dom:
+        return ctx
+    for i in sorted(dom[x]):
+        if i == x:
+            continue
+        info = enum_switch_info(b, i)
+        if info is None:
+            continue
+        succs = set(j for j, _ in b.succ(i))
+        through = [j for j in succs if j == x or j in dom[x]]
+        if len(through) != 1:
+            continue
+        vs = edge_variants(b, i, through[0])
+        ctx.append((info[0].split('::')[-1], vs))
+    return ctx
